@@ -142,6 +142,7 @@ func (c *checker) live(t *testing.T) {
 		n    *node
 		rest []*node
 	}
+	mkNA := liveNA
 	mk := func(id, kind string, ekus []string) lv {
 		k := pki.LoadKey("p256-3")
 		exts := []pki.Ext{pki.ExtSAN(id + ".example"), pki.ExtAKI(keyID(I1.T.Key))}
@@ -156,15 +157,22 @@ func (c *checker) live(t *testing.T) {
 			exts = append(exts, pki.ExtEKU(o...))
 		}
 		exts = append(exts, pki.ExtUnknown(7, false, []byte{5, 0}))
-		cert := pki.Build(pki.Tmpl{Serial: nextSerial(), Issuer: I1.T.Subject, Subject: pki.CN(id), NotBefore: bubbleEpoch.AddDate(-1, 0, 0), NotAfter: liveNA, Key: k, Exts: exts}, I1.T.Key)
+		cert := pki.Build(pki.Tmpl{Serial: nextSerial(), Issuer: I1.T.Subject, Subject: pki.CN(id), NotBefore: bubbleEpoch.AddDate(-1, 0, 0), NotAfter: mkNA, Key: k, Exts: exts}, I1.T.Key)
 		n := wrap(cert, id, ekus)
 		derLabel[string(n.DER)] = id
 		return lv{n, []*node{I1, R1}}
 	}
 	leaves := []lv{mk("live-cert-server", kCert, []string{"server"}), mk("live-pre-server", kPre, []string{"server"}),
 		mk("live-cert-client", kCert, []string{"client"}), mk("live-cert-noeku", kCert, nil)}
+	// far-future NotAfter values (beyond what an int64 of nanoseconds since 1970 can hold): outside every window with a limit
+	for _, y := range []int{2300, 9999} {
+		mkNA = time.Date(y, 12, 31, 23, 59, 59, 0, time.UTC)
+		leaves = append(leaves, mk(fmt.Sprintf("live-cert-notafter-%d", y), kCert, []string{"server"}))
+	}
+	mkNA = liveNA
 	// a CA certificate as the first element (accept_only_ca); its NotAfter is pki.T1, far after the bubble's clock
 	leaves = append(leaves, lv{I1, []*node{R1}})
+	c.liveTwoPools(t, rootsFile, keyAny, dir)
 	cfgs := liveConfigs(r.Thorough())
 	r.Set("live_instance_configurations", len(cfgs))
 	done := enum.ParFor(len(cfgs), r.Expired, func(i int) {
@@ -248,5 +256,88 @@ func (c *checker) live(t *testing.T) {
 	})
 	if !done {
 		r.Capped("deadline reached before all live-instance configurations were run")
+	}
+}
+
+// liveTwoPools: several logs of one process, configured with different roots files (one of them with
+// two files). Each log trusts exactly the roots of its own files, whatever was set up before or after.
+func (c *checker) liveTwoPools(t *testing.T, rootsFile string, keyAny *anypb.Any, dir string) {
+	r := c.r
+	var U0 *node
+	for _, n := range c.w.inserts {
+		if n.self {
+			U0 = n
+		}
+	}
+	if U0 == nil {
+		r.Violation("harness", "no untrusted root in the world", nil)
+		return
+	}
+	extra := filepath.Join(dir, "extra.pem")
+	if err := os.WriteFile(extra, pem.EncodeToMemory(&pem.Block{Type: "CERTIFICATE", Bytes: U0.DER}), 0o600); err != nil {
+		t.Fatal(err)
+	}
+	var R1 *node
+	for _, b := range c.w.bases {
+		if b.name == "one-int" {
+			R1 = b.path[2]
+		}
+	}
+	mkLeaf := func(id string, parent *node) *node {
+		exts := []pki.Ext{pki.ExtSAN(id + ".example"), pki.ExtAKI(keyID(parent.T.Key))}
+		cert := pki.Build(pki.Tmpl{Serial: nextSerial(), Issuer: parent.T.Subject, Subject: pki.CN(id), NotBefore: pki.T0, NotAfter: leafNA, Key: pki.LoadKey("p256-3"), Exts: exts}, parent.T.Key)
+		n := wrap(cert, id, nil)
+		derLabel[string(n.DER)] = id
+		return n
+	}
+	lu, l1 := mkLeaf("pool-leaf-under-extra-root", U0), mkLeaf("pool-leaf-under-common-root", R1)
+	type logSpec struct {
+		name  string
+		files []string
+		wide  bool
+	}
+	orders := [][]logSpec{
+		{{"narrow", []string{rootsFile}, false}, {"wide", []string{rootsFile, extra}, true}, {"narrow2", []string{rootsFile}, false}},
+		{{"wide", []string{rootsFile, extra}, true}, {"narrow", []string{rootsFile}, false}, {"wide2", []string{extra, rootsFile}, true}},
+	}
+	for oi, order := range orders {
+		var fes []*fe.FE
+		for li, ls := range order {
+			cfg := &configpb.LogConfig{LogId: int64(10 + li), Prefix: ls.name, RootsPemFile: ls.files, PrivateKey: keyAny}
+			v, err := ctfe.ValidateLogConfig(cfg)
+			if err != nil {
+				r.Violation("live: well-formed log configuration refused", fmt.Sprintf("%s: %v", ls.name, err), nil)
+				return
+			}
+			rl := &fe.ReqLog{}
+			inst, err := ctfe.SetUpInstance(context.Background(), ctfe.InstanceOptions{Validated: v, Client: reflog.New(int64(10 + li)), Deadline: time.Hour,
+				MetricFactory: monitoring.InertMetricFactory{}, RequestLog: rl})
+			if err != nil {
+				r.Violation("live: SetUpInstance fails on a well-formed configuration", fmt.Sprintf("%s: %v", ls.name, err), nil)
+				return
+			}
+			fes = append(fes, &fe.FE{Inst: inst, Log: rl, Prefix: "/" + ls.name, Pool: c.pool})
+		}
+		// every log is asked twice, after all of them exist
+		for round := 0; round < 2; round++ {
+			for li, ls := range order {
+				for _, sub := range []struct {
+					leaf, root *node
+					want       bool
+				}{{lu, U0, ls.wide}, {l1, R1, true}} {
+					r.Eval(1)
+					r.Nontrivial(fmt.Sprintf("two-pools|%d|%s|%s|%d", oi, ls.name, sub.leaf.id, round))
+					rsp, _ := fes[li].AddChain(false, [][]byte{sub.leaf.DER, sub.root.DER})
+					if (rsp.Status == 200) != sub.want {
+						desc := map[string]any{"logs_set_up_in_order": fmt.Sprint(order), "log": ls.name, "roots_files": ls.files, "chain": []string{sub.leaf.id, sub.root.id}}
+						if sub.want {
+							r.Violation("live instance refuses a chain to a root of its own roots files (several logs in one process)", fmt.Sprintf("log %s (files %v): HTTP %d %s", ls.name, ls.files, rsp.Status, strings.TrimSpace(string(rsp.Body))), desc)
+						} else {
+							r.Violation("live instance admits a chain to a root that is not in its roots files (several logs in one process)", fmt.Sprintf("log %s (files %v) admits [%s, %s]", ls.name, ls.files, sub.leaf.id, sub.root.id), desc)
+						}
+					}
+				}
+			}
+		}
 	}
 }
